@@ -147,6 +147,13 @@ static int init_websocket_peer(struct websocket_peer *ws_peer, struct http_conne
 	return 0;
 }
 
+static void free_websocket_peer_with_connection(struct http_connection *connection)
+{
+	struct websocket *s = connection->parser.data;
+	struct websocket_peer *ws_peer = container_of(s, struct websocket_peer, websocket);
+	free_websocket_peer_on_error(ws_peer);
+}
+
 int alloc_websocket_peer(struct http_connection *connection)
 {
 	struct websocket_peer *ws_peer = cjet_calloc(1, sizeof(*ws_peer));
@@ -155,5 +162,9 @@ int alloc_websocket_peer(struct http_connection *connection)
 	}
 
 	connection->parser.data = &ws_peer->websocket;
-	return init_websocket_peer(ws_peer, connection, connection->is_local_connection);
+	int ret = init_websocket_peer(ws_peer, connection, connection->is_local_connection);
+	if (likely(ret == 0)) {
+		connection->free_context = free_websocket_peer_with_connection;
+	}
+	return ret;
 }
